@@ -477,6 +477,8 @@ namespace GeographicLib {
         throw GeographicLib::GeographicErr("Bad value for cost");
       std::vector<Node> tree;
       tree.reserve(treesize);
+      // each node may be the child of at most one parent
+      std::vector<bool> used(treesize, false);
       for (int i = 0; i < treesize; ++i) {
         Node node;
         if (bin) {
@@ -517,6 +519,16 @@ namespace GeographicLib {
           }
         }
         node.Check(numpoints, i, bucket);
+        if (node.index >= 0) {
+          for (int l = 0; l < 2; ++l) {
+            int c = node.data.child[l];
+            if (c >= 0) {
+              if (used[c])
+                throw GeographicLib::GeographicErr("Bad child pointers");
+              used[c] = true;
+            }
+          }
+        }
         tree.push_back(node);
       }
       _tree.swap(tree);
